@@ -32,7 +32,10 @@ RULE = ('SimpleClient on the real Client on the harness engine, its two '
         'are enumerated by DFS over all schedules, larger ones sampled. '
         'AsyncSimpleClient on the deterministic loop: generated orders of '
         'stimuli (deliver, start receive, lose, reconnect, timer) injected '
-        'at idle points or back to back. Oracle: returned values are a '
+        'at idle points or back to back, optionally followed by a second '
+        'connect() on the same object once the first connection has ended '
+        'for good (event, ordinary loss, emit() waiting the reconnection '
+        'out, event). Oracle: returned values are a '
         'prefix of the arrival sequence; TimeoutError only while no arrived '
         'event is in the buffer; DisconnectedError only after the final '
         'disconnect with all earlier events returned; no receive() parked '
@@ -79,7 +82,11 @@ def strategy(tier):
         'aio': st.just(True),
         'groups': st.lists(st.lists(stim, min_size=1, max_size=3),
                            min_size=2, max_size=14 if big else 9),
-        'final': st.booleans()})
+        'final': st.booleans(),
+        # after the connection has ended for good the application calls
+        # connect() again on the same simple client: nothing of the first
+        # connection may change how the second one behaves
+        'second': st.booleans()})
     return st.one_of(sync, asy)
 
 
@@ -540,9 +547,78 @@ def _check_async(case):
             elif final[0]:
                 raise Violation('emit-hangs-after-final-disconnect', '')
         labels['events'] = len(arrivals)
+        if case.get('second') and final[0] and not pending and \
+                not sc.connected:
+            _second_life(socketio, loop, sc, holder, wire, ep, labels)
         return labels
     finally:
         loop.shutdown()
+
+
+def _second_life(socketio, loop, sc, holder, wire, ep, labels):
+    def run_for(task, what, ticks=6):
+        for _ in range(ticks):
+            loop.run_until_idle()
+            if task.done():
+                break
+            if not loop.advance():
+                break
+        loop.run_until_idle()
+        if not task.done():
+            task.cancel()
+            loop.run_until_idle()
+            raise Violation('second-connection-' + what + '-hangs', '')
+        return task.result()
+
+    def accept():
+        h = holder['h']
+        if h.eio.state == 'connected' and '/ns' not in h.sio.namespaces:
+            for f in wire.frames(wire.CONNECT, '/ns', None, {'sid': 'again'}):
+                h.deliver(f)
+    t = loop.spawn(sc.connect('http://h', namespace='/ns'))
+    loop.run_until_idle()
+    accept()
+    loop.run_until_idle()
+    if not t.done() or t.exception() is not None:
+        raise Violation('second-connect-failed', repr(t))
+    h = holder['h']
+
+    def event(n):
+        for f in wire.frames(wire.EVENT, '/ns', None, ['again', n]):
+            h.deliver(f)
+    event(1)
+    got = run_for(loop.spawn(sc.receive(timeout=5)), 'receive')
+    if got != ['again', 1]:
+        raise Violation('second-connection-event', repr(got))
+    # an ordinary transient loss: the reconnection is waited out
+    h.plan[:] = ['ok']
+    h.lose()
+    loop.run_until_idle()
+    em = loop.spawn(sc.emit('x', 2))
+    for _ in range(6):
+        loop.run_until_idle()
+        accept()
+        if em.done():
+            break
+        if not loop.advance():
+            break
+    accept()
+    loop.run_until_idle()
+    if not em.done():
+        em.cancel()
+        loop.run_until_idle()
+        raise Violation('second-connection-emit-hangs', 'emit() during the '
+                        'reconnection of the second connection never '
+                        'returns (engine state %r)' % h.eio.state)
+    if em.exception() is not None:
+        raise Violation('second-connection-emit-raised',
+                        repr(em.exception()))
+    event(2)
+    got = run_for(loop.spawn(sc.receive(timeout=5)), 'receive')
+    if got != ['again', 2]:
+        raise Violation('second-connection-event', repr(got))
+    labels['second_connection'] = True
+    labels['nontrivial'] = True
 
 
 def classify(case, v):
